@@ -41,7 +41,8 @@ PROBES = ["q_mut_q", "q_after_append", "q_after_remove", "q_after_modify_element
           "q_after_modify_column", "q_after_rename", "q_after_fillna", "q_after_reset_index", "index_query_repeat",
           "nonrange_index", "block_query_hit", "alias_retired", "nan_cell", "dup_value_hit", "new_column_added",
           "empty_table", "from_query_holder", "slice_holder", "copy_holder", "viewer_built", "viewer_child_block", "viewer_append", "viewer_append_to_empty", "viewer_from_iterator",
-          "viewer_query", "viewer_query_on_child"]
+          "viewer_query", "viewer_query_on_child", "big_table", "bool_column_query", "bool_column_query_for_false",
+          "indexed_query_on_10k_rows", "indexed_query_on_10k_rows_labels_not_positions"]
 # the same check again, smaller, in interpreters started with assertions stripped (python -O / PYTHONOPTIMIZE=1)
 ENV_VARIANTS = [{"name": "python-O", "env": {"PYTHONOPTIMIZE": "1"}, "runs": {'quick': 2500, 'thorough': 25000}}]
 TIERS = {
@@ -50,11 +51,11 @@ TIERS = {
 }
 MIN_SECONDS = 20.0
 
-INT_VALS = [1, 2, 3, 4]
+INT_VALS = [0, 1, 2, 3]      # 0 on purpose: a numpy zero is falsy
 STR_VALS = {"operation": ["x", "y", "block_start", "block_end"], "name": ["a", "b", "\u00e4\u540d", "a"]}
 BASE_COLS = ["stmt_id", "operation", "name", "v"]
 KIND = {"stmt_id": "int", "operation": "str", "name": "str", "v": "int", "name2": "str", "v2": "int", "s_op": "str",
-        "n1": "int", "s1": "str"}
+        "n1": "int", "s1": "str", "flag": "bool"}
 
 _DM = None
 _np = None
@@ -127,8 +128,10 @@ INDEX_QUERIES = ["qidx", "qval", "qfirst", "bundle_search", "block_indices", "re
 
 
 def gen_knobs(rng, tier):
+    r_pop = rng.random()
     return {
-        "population": "default",
+        "population": "big" if r_pop < 0.0025 else "default",
+        "p_flag": rng.choice([0.0, 0.0, 0.2, 0.5]),
         "n_ops": rng.randint(4, 30),
         "max_rows": rng.choice([2, 4, 6, 8]),
         "p_none": rng.choice([0.0, 0.1, 0.3]),
@@ -148,7 +151,18 @@ def _gen_cell(rng, k, col):
         return None
     if col_kind(col) == "int":
         return rng.choice(INT_VALS)
+    if col_kind(col) == "bool":
+        return rng.choice([True, False])
     return rng.choice(STR_VALS.get(col, ["a", "b", "c", "a"]))
+
+
+def _gen_val(rng, col):
+    """a value to ask a column for"""
+    if col_kind(col) == "int":
+        return rng.choice(INT_VALS)
+    if col_kind(col) == "bool":
+        return rng.choice([True, False, False])
+    return rng.choice(STR_VALS.get(col, ["a", "b", "c"]))
 
 
 def _gen_rows(rng, k, cols, n=None):
@@ -183,10 +197,12 @@ def _gen_query(rng, k, kind=None):
     kind = kind or (rng.choice(INDEX_QUERIES) if rng.random() < k["p_index_query"] else rng.choice(QUERIES))
     q = {"op": "q", "kind": kind, "h": rng.randrange(8)}
     col = rng.choice(BASE_COLS + ["n1", "s1", "name2"])
+    if rng.random() < k.get("p_flag", 0.0):
+        col = "flag"
     if kind in ("qidx", "qval", "qfirst", "bundle_search", "unique", "access_column", "slow_query_first", "slow_query"):
         q["col"] = col
     if kind in ("qidx", "qval", "qfirst", "bundle_search", "slow_query_first", "slow_query"):
-        q["v"] = rng.choice(INT_VALS) if col_kind(col) == "int" else rng.choice(STR_VALS.get(col, ["a", "b", "c"]))
+        q["v"] = _gen_val(rng, col)
         if rng.random() < 0.05:
             q["v"] = None
     if kind in ("access",):
@@ -208,6 +224,8 @@ def _gen_mutation(rng, k):
     kind = rng.choice(k["muts"])
     op = {"op": kind, "h": rng.randrange(8)}
     col = rng.choice(BASE_COLS + (["n1", "s1", "name2"] if rng.random() < 0.3 else []))
+    if rng.random() < k.get("p_flag", 0.0) * 0.6:
+        col = "flag"
     if kind == "modify_element":
         op.update(i=rng.randrange(16), col=col, v=_gen_cell(rng, k, col))
     elif kind == "modify_row":
@@ -226,9 +244,11 @@ def _gen_mutation(rng, k):
             cols = [c for c in BASE_COLS if rng.random() < 0.9] or ["stmt_id"]
             if rng.random() < 0.1:
                 cols.append("s1")
+            if rng.random() < k.get("p_flag", 0.0):
+                cols.append("flag")
             op.update(rows=_gen_rows(rng, k, cols, n=rng.randint(0, 3)))
     elif kind == "remove_rows":
-        op.update(col=col, v=rng.choice(INT_VALS) if col_kind(col) == "int" else rng.choice(STR_VALS.get(col, ["a", "b", "c"])))
+        op.update(col=col, v=_gen_val(rng, col))
     elif kind == "rename_column":
         old = rng.choice(["name", "v", "name2", "v2", "operation"])
         new = {"name": "name2", "name2": "name", "v": "v2", "v2": "v", "operation": "s_op"}[old]
@@ -253,9 +273,11 @@ def _gen_construction(rng, k):
     op = {"op": kind, "h": rng.randrange(8)}
     if kind == "new":
         cols = list(BASE_COLS) if rng.random() < 0.8 else [c for c in BASE_COLS if rng.random() < 0.7] or ["stmt_id"]
+        if rng.random() < k.get("p_flag", 0.0):
+            cols = cols + ["flag"]
         op["rows"] = _gen_rows(rng, k, cols)
         # columns= may only name str columns that hold a string in some row (see _gen_rows)
-        cols = [c for c in cols if col_kind(c) == "int" or any(isinstance(r.get(c), str) for r in op["rows"])]
+        cols = [c for c in cols if col_kind(c) in ("int", "bool") or any(isinstance(r.get(c), str) for r in op["rows"])]
         r = rng.random()
         op["columns"] = None if r < 0.6 else (cols if r < 0.8 else {"dict": cols})
     elif kind == "from_df":
@@ -329,8 +351,41 @@ def _gen_viewer_op(rng, k):
     return q
 
 
+BIG_OPS = ["x", "y", "block_start", "block_end"]
+
+
+def big_rows(n, salt):
+    """the rows of a big table, a pure function of (n, salt): every value repeats thousands of times"""
+    return [{"stmt_id": (i * 3 + salt) % 4 + 1, "operation": BIG_OPS[(i + i // 5 + salt) % 4], "name": ["a", "b", "\u00e4\u540d"][(i * 7 + salt) % 3],
+             "v": (i * 5 + i // 3 + salt) % 5 + 1} for i in range(n)]
+
+
+def generate_big(rng, k):
+    """tables around lian's size thresholds (10^4 rows): a removal makes row labels differ from row positions, then
+    equality-indexed questions are asked of the table and of tables derived from it."""
+    n = rng.choice([9000, 9990, 10000, 10010, 11000, 12000, 12600, 13000, 15000])
+    ops = [{"op": "new_big", "h": 0, "n": n, "salt": rng.randrange(100)}]
+    for _ in range(rng.randint(3, 7)):
+        r = rng.random()
+        col = rng.choice(["stmt_id", "operation", "name", "v"])
+        val = rng.choice([1, 2, 3, 4, 5]) if col == "v" else _gen_val(rng, col)
+        if r < 0.3:
+            ops.append({"op": "remove_rows", "h": rng.choice([0, -1]), "col": col, "v": val})
+        elif r < 0.4:
+            ops.append({"op": rng.choice(["slice", "from_query", "from_qval"]), "h": 0, "a": rng.randrange(3000), "b": n - rng.randrange(3000),
+                        "col": col, "v": val, "reset": rng.random() < 0.3})
+        elif r < 0.5:
+            ops.append({"op": "q", "kind": rng.choice(["access", "len", "get_rows"]), "h": rng.choice([0, -1]), "i": rng.randrange(9000)})
+        else:
+            ops.append({"op": "q", "kind": rng.choice(["qidx", "qidx", "qfirst", "qval", "bundle_search"]), "h": rng.choice([0, -1]), "col": col, "v": val})
+    return ops
+
+
 def generate(rng, k):
-    ops = [{"op": "new", "h": 0, "rows": _gen_rows(rng, k, BASE_COLS, n=rng.randint(1, k["max_rows"])), "columns": None}]
+    if k.get("population") == "big":
+        return generate_big(rng, k)
+    first_cols = BASE_COLS + (["flag"] if rng.random() < k.get("p_flag", 0.0) else [])
+    ops = [{"op": "new", "h": 0, "rows": _gen_rows(rng, k, first_cols, n=rng.randint(1, k["max_rows"])), "columns": None}]
     if k.get("w_viewer"):
         ops.append({"op": "new", "h": 1, "rows": _gen_gir(rng, k), "columns": None})
         ops.append({"op": "viewer_new", "h": 1})
@@ -408,12 +463,33 @@ def cell(x):
     return repr(x)
 
 
+def debool(x):
+    """pandas converts freely between False/True and 0/1 when a column changes its dtype (a bool appended to an
+    all-missing float column arrives as 0.0); contents are compared modulo that identification, which Python's == shares."""
+    if isinstance(x, bool):
+        return int(x)
+    if isinstance(x, dict):
+        return {k_: debool(v_) for k_, v_ in x.items()}
+    if isinstance(x, (list, tuple)):
+        return [debool(v_) for v_ in x]
+    return x
+
+
+def cj(x):
+    return canon_json(debool(x))
+
+
 def extract(dm):
     """fresh extraction through the public get_data(); uses none of the table's cached structures."""
     df = dm.get_data()
     cols = [str(c) for c in df.columns]
     labels = [cell(l) for l in df.index]
     rows = []
+    if len(df) > 500:
+        mat = df.to_numpy(dtype=object)          # big tables: one conversion instead of one .iat call per cell
+        for i in range(len(df)):
+            rows.append([labels[i], {c: cell(mat[i, j]) for j, c in enumerate(cols)}])
+        return T(cols, rows)
     for i in range(len(df)):
         rows.append([labels[i], {c: cell(df.iat[i, j]) for j, c in enumerate(cols)}])
     return T(cols, rows)
@@ -504,10 +580,14 @@ def execute(trace):
     def writable(h, col, value):
         """pandas refuses a str into a numeric column (an all-missing column is inferred float64) and a number into a
         str column; such writes are outside the generated domain and are skipped by model and table alike."""
-        if value is None:
-            return True
         dt = h["dm"].get_data()[col].dtype
         kind = getattr(dt, "kind", "O")
+        if value is None:
+            return kind != "b"            # a missing value into a pure bool column: left out (pandas decides about the dtype)
+        if isinstance(value, bool):
+            return kind in "bO" and str(dt) not in ("str", "string")
+        if kind == "b":
+            return False
         if isinstance(value, str):
             return kind not in "fiub"
         return kind in "fiuO" and str(dt) not in ("str", "string")
@@ -525,7 +605,14 @@ def execute(trace):
         obs = None
         try:
             # ------------------------------------------------------------ constructions
-            if kind == "new":
+            if kind == "new_big":
+                rows_arg = big_rows(op["n"], op.get("salt", 0))
+                model = model_new(rows_arg, None)
+                dm = sut(lambda: _DM([dict(r) for r in rows_arg]))
+                add_holder(dm, model, "new_big")
+                hit("big_table")
+                log.append([kind, len(model.rows)])
+            elif kind == "new":
                 cols = op.get("columns")
                 carg = None
                 if isinstance(cols, dict):
@@ -619,6 +706,8 @@ def execute(trace):
                                 vals.append(None)
                             elif col_kind(c) == "int":
                                 vals.append(INT_VALS[sv % 4])
+                            elif col_kind(c) == "bool":
+                                vals.append([True, False][sv % 2])
                             else:
                                 vals.append(STR_VALS.get(c, ["a", "b", "c", "a"])[sv % 4])
                         if all(writable(h, c, v) for c, v in zip(m.cols, vals)):
@@ -640,6 +729,8 @@ def execute(trace):
                                     vals.append(None)
                                 elif col_kind(c) == "int":
                                     vals.append(INT_VALS[sv % 4])
+                                elif col_kind(c) == "bool":
+                                    vals.append([True, False][sv % 2])
                                 else:
                                     vals.append(["a", "b", "c", "a"][sv % 4])
                             arg = list(vals)
@@ -792,7 +883,7 @@ def execute(trace):
                     if s_ != -1:
                         hit("viewer_query_on_child")
                     log.append(["vq", op["kind"], obs])
-                    if canon_json(exp) != canon_json(obs):
+                    if cj(exp) != cj(obs):
                         violation = {"step": step, "cls": f"viewer:{op['kind']}", "detail": {"op": op, "expected": exp, "observed": obs,
                                                                                              "range": [s_, e_], "rows": rows}}
             elif kind == "q":
@@ -801,7 +892,7 @@ def execute(trace):
                 if skipped:
                     continue
                 log.append(["q", op["kind"], obs])
-                if canon_json(exp) != canon_json(obs):
+                if cj(exp) != cj(obs):
                     violation = vio(step, f"query:{op['kind']}", op, exp, obs, h)
             else:
                 continue
@@ -819,7 +910,7 @@ def execute(trace):
             except Exception as e:  # noqa
                 violation = {"step": step, "cls": "extract_failed", "detail": {"op": op, "error": repr(e)[:300]}}
                 break
-            if ext.cols != h["model"].cols or canon_json(ext.rows) != canon_json(h["model"].rows):
+            if ext.cols != h["model"].cols or cj(ext.rows) != cj(h["model"].rows):
                 violation = {"step": step, "cls": f"content:{kind}", "detail": {
                     "op": op, "holder": hi, "origin": h["origin"],
                     "expected": {"cols": h["model"].cols, "rows": h["model"].rows},
@@ -974,6 +1065,14 @@ def run_query(h, op, sut, hit, states, trans):
     col = op.get("col")
     if col is not None and col not in cols:
         return None, None, True
+    if col == "flag":
+        hit("bool_column_query")
+        if op.get("v") is False:
+            hit("bool_column_query_for_false")
+    if n >= 10000 and kind in ("qidx", "qval", "qfirst", "bundle_search"):
+        hit("indexed_query_on_10k_rows")
+        if labels != list(range(n)):
+            hit("indexed_query_on_10k_rows_labels_not_positions")
     if kind in ("block_indices", "read_block", "read_block_with", "boundary") and "stmt_id" not in cols:
         return None, None, True
     src_state(h, states, kind)
